@@ -150,7 +150,9 @@ impl Ctx {
         let hl = if w[1] < 192 { 2 } else if w[1] < 224 { 3 } else { 6 };
         let nbits = (w.len() - hl) * 8;
         let mut bits: Vec<usize> = Vec::new();
-        if self.thorough && nbits <= 6000 { bits.extend(0..nbits); } else {
+        // key derivations that cost tens of milliseconds (Argon2, high iteration counts) get the sampled sweep in both tiers
+        let costly = matches!(params, S2kParams::Aead { s2k: StringToKey::Argon2 { .. }, .. }) || matches!(params, S2kParams::Cfb { s2k: StringToKey::IteratedAndSalted { count, .. }, .. } | S2kParams::MalleableCfb { s2k: StringToKey::IteratedAndSalted { count, .. }, .. } | S2kParams::Aead { s2k: StringToKey::IteratedAndSalted { count, .. }, .. } if *count > 150);
+        if self.thorough && nbits <= 6000 && !costly { bits.extend(0..nbits); } else {
             // every bit of the protection parameters and of the last 24 octets; a sample elsewhere
             let pstart = pubb.len() * 8; let pend = (w.len() - hl - ct.len()) * 8;
             bits.extend(pstart..pend);
